@@ -11,32 +11,33 @@ tvars == <<vars, l, div, dev>>
 
 TInit == Init /\ l = 1 /\ div = NoDiv /\ dev = {} /\ TLCSet(1, 1) /\ TLCSet(2, NoDiv) /\ TLCSet(3, {})
 
-(* expected observation of a mining step under the IDEAL rule / the deviation *)
+(* expected observation of a mining step under the IDEAL rule (gp = FALSE) / the deviation (gp = TRUE) *)
 MineObs(ev, gp) == [bits |-> ExpectedBits(pc, chain, Len(chain) + 1, gp), res |-> "ok",
                     acc |-> IF ev.acc = <<>> THEN <<>> ELSE CandAcc(pc, chain, ev.cb, gp)]
 MineAct(ev) == [bits |-> ev.bits, res |-> ev.res, acc |-> ev.acc]
-UseDev(ev) == ev.op = "mine" /\ KF_PowGrandparentBits /\ MineAct(ev) # MineObs(ev, FALSE) /\ MineAct(ev) = MineObs(ev, TRUE)
 
-Act(ev) ==
+(* ud: this step needs the known deviation *)
+Act(ev, ud) ==
   CASE ev.op = "reset"   -> Reset
     [] ev.op = "cfg"     -> SetCfg(ev.cfg)
-    [] ev.op = "mine"    -> MineW(ev.d, ev.cb, UseDev(ev))
+    [] ev.op = "mine"    -> MineW(ev.d, ev.cb, ud)
     [] ev.op = "compact" -> Compact(ev.c)
 
 TStep ==
   /\ l <= Len(Trace) /\ div = NoDiv
   /\ LET ev == Trace[l]
-         exp == CASE ev.op = "mine" -> MineObs(ev, UseDev(ev))
-                  [] ev.op = "compact" -> CompactRes(ev.c)
-                  [] OTHER -> [none |-> 0]
          act == CASE ev.op = "mine" -> MineAct(ev)
                   [] ev.op = "compact" -> ev.res
                   [] OTHER -> [none |-> 0]
-     IN /\ Act(ev)
-        /\ div' = IF exp = act THEN NoDiv
+         expI == CASE ev.op = "mine" -> MineObs(ev, FALSE)
+                   [] ev.op = "compact" -> CompactRes(ev.c)
+                   [] OTHER -> [none |-> 0]
+         ud == ev.op = "mine" /\ KF_PowGrandparentBits /\ act # expI /\ act = MineObs(ev, TRUE)
+     IN /\ Act(ev, ud)
+        /\ div' = IF act = expI \/ ud THEN NoDiv
                   ELSE [at |-> l, tr |-> ev.tr, op |-> ev.op, expres |-> "see expected", actres |-> "see actual",
-                        exp |-> exp, act |-> act]
-        /\ dev' = IF UseDev(ev) THEN dev \cup {"pow-grandparent-target"} ELSE dev
+                        exp |-> expI, act |-> act]
+        /\ dev' = IF ud THEN dev \cup {"pow-grandparent-target"} ELSE dev
   /\ l' = l + 1
 TSpec == TInit /\ [][TStep]_tvars
 
